@@ -58,8 +58,8 @@ def ofOut : Out DSpec (Nat × String × Nat) → J
 /-- both lookups of every key of the universe -/
 def view (keys : List Key) (s : State DSpec (Nat × String × Nat)) : J :=
   .arr (keys.map fun k => match find? s.cache k with
-    | none => .null
-    | some e => ofEntry e)
+    | none => .obj [("entry", .null), ("lookup", .null)]
+    | some e => .obj [("entry", ofEntry e), ("lookup", .num e.serial)])
 
 def runAll (keys : List Key) : State DSpec (Nat × String × Nat) → List (Op DSpec) → List J
   | _, [] => []
